@@ -36,7 +36,7 @@ func globalCase(c *fw.Ctx, r *fw.Rand, idx int) {
 	dir := filepath.Join(c.Dir, fmt.Sprintf("global%d", idx))
 	os.RemoveAll(dir)
 	defer os.RemoveAll(dir)
-	n := r.Range(2, 4)
+	n := r.Range(2, 5)
 	base := 30
 	peers := make([]*sim.NetPeer, n)
 	ids := make([]peer.ID, n)
@@ -309,6 +309,15 @@ func globalCase(c *fw.Ctx, r *fw.Rand, idx int) {
 	}
 	time.Sleep(300 * time.Millisecond)
 	checkAll("one-down")
+	// a second member goes away (the views are reads: no quorum needed)
+	if n >= 3 {
+		second := (victim + 1 + r.Intn(n-1)) % n
+		history = append(history, fmt.Sprintf("p%d stops", second))
+		peers[second].Node.Close()
+		alive[second] = false
+		time.Sleep(300 * time.Millisecond)
+		checkAll("two-down")
+	}
 	c.Sample(map[string]interface{}{"family": "global", "peers": n, "history": history})
 }
 
